@@ -752,6 +752,10 @@ func (pr *ProtoArray) maybeUpdateBestChildAndDescendant(parentIndex NodeIndex, c
 			} else if (!childLeadsToViableHead) && bestChildLeadsToViableHead {
 				// The best child leads to a viable head, but the child doesn't.
 				// *No change*
+			} else if (!childLeadsToViableHead) && !bestChildLeadsToViableHead {
+				// Neither leads to a viable head: there is no best child,
+				// the same as when the only child stops being viable.
+				changeToNone()
 			} else if child.Weight == bestChild.Weight {
 				// Tie-breaker of equal weights by root. (smaller hash wins)
 				if bytes.Compare(child.Ref.Root[:], bestChild.Ref.Root[:]) > 0 {
